@@ -430,7 +430,7 @@ func Run(c *core.Ctx) {
 		c.Add("edges_replayed", int64(covered))
 		// beyond the exported graph (|S| <= 2): seeded random sessions with up to 7 subscriptions at a time over filters
 		// of depth <= 3 with '+' at every position (and '#' in mqtt mode), 4 subscribers - R -> V, TLC is the oracle
-		walks = append(walks, randomWalks(mode, map[bool]int{true: 80, false: 1500}[c.Quick()], 30, rng)...)
+		walks = append(walks, randomWalks(mode, map[bool]int{true: 80, false: 500}[c.Quick()], 30, rng)...)
 		traces := make([]*core.Trace, len(walks))
 		var wg sync.WaitGroup
 		sem := make(chan struct{}, 8)
